@@ -143,6 +143,84 @@ def codecR (k : RKind) (total : Nat) : Codec where
 def decodeR (k : RKind) (t : Ty) (input : Bytes) : Option (Val × Bytes) :=
   decode (codecR k input.length) t input
 
+
+/-! ## decoding into a destination that already holds a value
+
+`unmarshal` decodes in place.  Most paths overwrite what was there, two do not (known finding
+`dirty-dst`): `decodePointer` leaves a non-nil pointer untouched on `None`, decodes `Some` into the
+existing pointee and, when the pointee is itself a pointer, skips one level (`dstv.Elem().Elem()`:
+the inner option byte is not read; a `*big.Int` / `*Uint128` pointee is then walked as a plain struct);
+`decodeResult` refuses a `Result` that is already set.  Arrays, slices, varying data types and all
+primitives start from a fresh value. -/
+
+def dirtyPrim : Prim → Val
+  | .i8 => .int (-1) | .i16 => .int (-1) | .i32 => .int (-1) | .i64 => .int (-1)
+  | .bool => .bool true
+  | .bytes => .bytes [0xaa] | .str => .bytes [0xaa]
+  | _ => .nat 1
+
+/-- the value the harness puts into a "dirty" destination (`c11DirtyVal`) -/
+def dirtyVal : Ty → Val
+  | .prim p => dirtyPrim p
+  | .unit => .unit
+  | .pair a b => .pair (dirtyVal a) (dirtyVal b)
+  | .option t => .some (dirtyVal t)
+  | .result a _ => .ok (dirtyVal a)
+  | .array n t => .list (List.replicate n (dirtyVal t))
+  | .seq t => .list [dirtyVal t]
+  | .enumNil => .unit
+  | .enumCons i t _ => .variant i (dirtyVal t)
+
+/-- `unmarshal` into a destination holding `old` (`total` = length of the whole input: a declared
+    byte-string length above `total + 65536` counts as a failure, see `decBytesR`) -/
+def decodeD (total : Nat) : Ty → Val → Bytes → Option (Val × Bytes)
+  | .pair a b, .pair x y, bs =>                               -- decodeStruct: fields in place
+    match decodeD total a x bs with
+    | none => none
+    | some (v, r) =>
+      match decodeD total b y r with
+      | none => none
+      | some (w, r') => some (.pair v w, r')
+  | .option (.option t2), .some (.some o2), bs =>              -- pointee is a pointer: one level skipped
+    match bs with
+    | [] => none
+    | tag :: r =>
+      if tag = 0 then some (.some (.some o2), r)
+      else if tag = 1 then (decodeD total t2 o2 r).map (fun (v, r') => (.some (.some v), r'))
+      else none
+  | .option (.prim .big), .some o, bs =>                       -- big.Int walked as a struct: reset to 0
+    match bs with
+    | [] => none
+    | tag :: r =>
+      if tag = 0 then some (.some o, r) else if tag = 1 then some (.some (.nat 0), r) else none
+  | .option (.prim .u128), .some o, bs =>                      -- Uint128{Upper, Lower} as a struct
+    match bs with
+    | [] => none
+    | tag :: r =>
+      if tag = 0 then some (.some o, r)
+      else if tag = 1 then
+        match C11.readFull 8 r with
+        | none => none
+        | some (up, r1) =>
+          match C11.readFull 8 r1 with
+          | none => none
+          | some (lo, r2) => some (.some (.nat (natOfLE up * 2 ^ 64 + natOfLE lo)), r2)
+      else none
+  | .option t, .some o, bs =>                                  -- None keeps the old pointer
+    match bs with
+    | [] => none
+    | tag :: r =>
+      if tag = 0 then some (.some o, r)
+      else if tag = 1 then (decodeD total t o r).map (fun (v, r') => (.some v, r'))
+      else none
+  | .result _ _, .ok _, _ => none                              -- ErrResultAlreadySet
+  | .result _ _, .err _, _ => none
+  | t, _, bs => decode (codecR .buffer total) t bs   -- everything else starts from a fresh value
+
+/-- `Decoder.Decode` into a destination holding `dirtyVal t` -/
+def decodeDG (t : Ty) (input : Bytes) : Option (Val × Bytes) :=
+  decodeD input.length t (dirtyVal t) input
+
 /-- no byte string / string anywhere in the type -/
 def noByteString : Ty → Bool
   | .prim .bytes => false
